@@ -78,4 +78,45 @@ pub fn run(ctx: &Ctx) {
             judge(&input, mode, loc);
         }));
     }
+    // history: parse + re-serialise a, then judge b, for all ordered pairs over a diverse input set
+    // (writer- or parser-side memo tables must not leak from one message into the next)
+    {
+        let mut set: Vec<(Vec<u8>, bool)> = vec![];
+        for f in decode_inputs(Tier::Quick) {
+            let stride: u64 = match f.name.as_str() {
+                "canon.u.single_arg" => 97,
+                "canon.u.len_sweep" => 1201,
+                "dialect.strings" | "dialect.type_info" => 997,
+                "canon.u.msin" => 601,
+                _ => 0,
+            };
+            if stride == 0 {
+                continue;
+            }
+            let mut i = 0;
+            while i < f.size {
+                let (b, mode) = variant((f.gen)(i), i % VARIANTS);
+                if b.len() <= 1200 {
+                    set.push((b, mode));
+                }
+                i += stride;
+            }
+        }
+        // byte-order twins with long names
+        for big in [false, true] {
+            for nl in [30usize, 31, 32, 33, 64] {
+                let name = "n".repeat(nl);
+                let m = crate::universe::msg_with(if big { 0x02 } else { 0 }, 1, Some(crate::universe::ext(MSTP_LOG, 4, "APP", "CTX")), RefPayload::Verbose(vec![crate::universe::mk_arg(RefKind::Uint(4), Some((&name, "unit")), 0, false, RefValue::U(0x0102_0304, 4), None)]), None);
+                set.push((encode(&m).0, false));
+            }
+        }
+        let n = set.len() as u64;
+        let set = &set;
+        ctx.run_family(Family::new("c16.history", n * n, format!("all {}^2 ordered pairs (a, b) over {} inputs (single arguments of every kind, name / string lengths, dialect strings and type-info words, message types, byte-order twins with long names): a is parsed and re-serialised, then b is judged twice", n, n), move |i, loc| {
+            let (a, b) = (&set[(i / n) as usize], &set[(i % n) as usize]);
+            let _ = catch(|| dlt_message(&a.0, None, a.1).map(|(_, pm)| if let ParsedMessage::Item(m) = pm { let _ = m.as_bytes(); }));
+            judge(&b.0, b.1, loc);
+            judge(&b.0, b.1, loc);
+        }).distinct());
+    }
 }
